@@ -60,6 +60,12 @@ struct CaseStats {
   uint64_t cases = 0, fired_cases = 0, reported = 0, tolerated = 0, not_fired = 0;
   uint64_t retry_ok = 0, requests_failed = 0, continue_ok = 0, emits_refused = 0;
   uint64_t errs_by_code[64] {};
+  // W8 (String model): calls by (start state | 7 = free-running sequence, operation); counted in armed cases only
+  uint64_t sm_ops = 0, sm_failed_calls = 0, sm_checks = 0, sm_continuations = 0;
+  uint64_t sm_ops_after_failure = 0;        // phase 1: calls on an object that has already seen a failed call (not reset in between by the harness)
+  uint64_t sm_ops_in_retry_after_failure = 0;   // phase 2: calls on such an object after reset / swap-out / destroy + construct
+  uint64_t sm_failed_by_type[3] {};         // storage of the string when the failed call was made: SSO, heap (kTypeLarge), external
+  uint64_t sm_run[8][64] {}, sm_failed[8][64] {};
 };
 struct Shared {
   Site sites[kSiteTab];
@@ -339,6 +345,10 @@ struct Result {
   std::string aux;    // best-effort text (logs) and implementation-defined choices: compared in the retry only
   const char* defect_kind = "jit-memory-kept-after-failed-add";
   std::string defects; // observations that are wrong whether or not an error was reported (e.g. JIT memory a failed add() kept)
+  // defects of a workload that knows which API call is at fault (W8): one per (kind, api) and case; the violation key names
+  // that call instead of the first refused request's call chain
+  struct Defect { const char* kind; const char* api; std::string what; };
+  std::vector<Defect> api_defects;
   std::string image;  // hex of the last flattened image (diagnostics: lets the Python side compare two images structurally)
   void put(const char* tag, const void* p, size_t n) { main += tag; main += '='; main += hexstr(p, n); main += ';'; }
   void num(const char* tag, uint64_t v) { char b[64]; snprintf(b, sizeof b, "%s=%llu;", tag, (ull)v); main += b; }
@@ -1607,6 +1617,448 @@ struct W7 : Workload {
   void destroy() override { as.reset(); cb.reset(); cc.reset(); code.reset(); logger.reset(); }
 };
 
+// =========================================================================================================
+// W8 - String / StringTmp<N> / ArenaString<N> against a std::string model
+// =========================================================================================================
+//
+// Every call is checked against the model. After kOk the string holds the model's new content. After an error it
+// still holds what it held before the call: that is what string.cpp implements - every operation obtains the new
+// buffer before it touches the old one. The one exception is _op_vformat(), which formats in place first whenever
+// >= 128 bytes are free: a failed assign_format() may therefore hold anything (it was about to be replaced), but it
+// is still a string: data() != null, size() <= capacity(), data()[size()] == 0 - demanded after every call.
+// After a failed call the caller goes on with the SAME object: all of it is read (String::equals + memcmp), then -
+// with memory available again - a growing assign and an append, then the script goes on (whose next step is a
+// reset(), a re-assign, ...). "Stop at first error" callers skip that and reset / swap out / destroy the object as
+// it is. A buffer that a failed call released too early is thus read, written, released and replaced.
+//
+// Part 1 (matrix): every script below from every start state (re-established before each script).
+// Part 2 (free running): seeded random calls, no re-establishing. Part 3: ArenaString::set_data.
+
+enum { SM_SSO = 0, SM_HEAP_SMALL, SM_HEAP_GROWN, SM_HEAP_ROOMY, SM_EXT, SM_EXT_ROOMY, SM_EXT_TO_HEAP, SM_FREE, SM_NROWS };
+static const char* const kSmRowNames[SM_NROWS] = { "sso", "heap_small_capacity", "heap_after_growth", "heap_roomy", "external", "external_roomy",
+                                                   "external_moved_to_heap", "free_running" };
+
+#define SM_OPS(X) \
+  X(SETUP_RESET) X(SETUP_EXTERNAL) X(SETUP_ASSIGN) X(SETUP_APPEND) X(SETUP_ASSIGN_CHARS) X(SETUP_TRUNCATE) \
+  X(ASSIGN_SHORT) X(ASSIGN_GROW) X(ASSIGN_GROW_BIG) X(ASSIGN_SHRINK) X(ASSIGN_SAME_SIZE) X(ASSIGN_CAPACITY) X(ASSIGN_CSTR_GROW) \
+  X(ASSIGN_SELF) X(ASSIGN_SELF_TAIL) X(ASSIGN_NULL) X(ASSIGN_OTHER) X(ASSIGN_SPAN_GROW) X(ASSIGN_CHAR) X(ASSIGN_CHARS_GROW) \
+  X(ASSIGN_INT) X(ASSIGN_UINT_WIDE) X(ASSIGN_HEX_GROW) X(ASSIGN_FORMAT_SMALL) X(ASSIGN_FORMAT_GROW) X(ASSIGN_FORMAT_HUGE) \
+  X(OP_STRING_ASSIGN_GROW) X(OP_STRING_ASSIGN_EMPTY) X(PREPARE_ASSIGN_GROW) \
+  X(APPEND_SMALL) X(APPEND_GROW) X(APPEND_CSTR_GROW) X(APPEND_SPAN_GROW) X(APPEND_CHAR) X(APPEND_CHARS_GROW) X(APPEND_OTHER) \
+  X(APPEND_INT) X(APPEND_UINT_HEX) X(APPEND_UINT_WIDE) X(APPEND_HEX) X(APPEND_HEX_GROW) \
+  X(APPEND_FORMAT_SMALL) X(APPEND_FORMAT_GROW) X(APPEND_FORMAT_HUGE) X(OP_NUMBER_APPEND) X(PREPARE_APPEND_GROW) \
+  X(PAD_END_GROW) X(PAD_END_CAPACITY) X(PAD_END_NOOP) X(TRUNCATE_HALF) X(TRUNCATE_NOOP) X(CLEAR) \
+  X(SWAP_OTHER) X(MOVE_FROM_OTHER) X(MOVE_ROUNDTRIP) \
+  X(ARENA_SET_EMBEDDED) X(ARENA_SET_EXTERNAL)
+enum SmOp {
+#define X(n) SMOP_##n,
+  SM_OPS(X)
+#undef X
+  SM_NOPS
+};
+static const char* const kSmOpNames[SM_NOPS] = {
+#define X(n) #n,
+  SM_OPS(X)
+#undef X
+};
+static_assert(SM_NOPS <= 64 && SM_NROWS <= 8, "CaseStats::sm_run / sm_failed are [8][64]");
+
+static char g_sm_txt[2][8192 + 128];
+static void sm_init_text() {
+  for (size_t i = 0; i < sizeof g_sm_txt[0]; i++) { g_sm_txt[0][i] = char('a' + (i * 7 + i / 26) % 26); g_sm_txt[1][i] = char('A' + (i * 5 + i / 13) % 26); }
+}
+
+// What String::_op_number documents by its flags, written independently of it.
+static std::string sm_number(uint64_t v, uint32_t base, size_t width, StringFormatFlags flags) {
+  uint64_t orig = v; char sign = 0;
+  if (Support::test(flags, StringFormatFlags::kSigned) && int64_t(v) < 0) { v = uint64_t(0) - v; sign = '-'; }
+  else if (Support::test(flags, StringFormatFlags::kShowSign)) sign = '+';
+  else if (Support::test(flags, StringFormatFlags::kShowSpace)) sign = ' ';
+  std::string digits;
+  do { digits.insert(digits.begin(), "0123456789ABCDEF"[v % base]); v /= base; } while (v);
+  std::string o;
+  if (sign) o += sign;
+  if (Support::test(flags, StringFormatFlags::kAlternate)) { if (base == 8 && orig != 0) o += '0'; if (base == 16) o += "0x"; }
+  if (width > 256) width = 256;
+  if (width > digits.size()) o.append(width - digits.size(), '0');
+  return o + digits;
+}
+static std::string sm_hex(const void* p, size_t n, char sep) {
+  std::string o;
+  for (size_t i = 0; i < n; i++) { if (i && sep) o += sep; o += "0123456789ABCDEF"[((const uint8_t*)p)[i] >> 4]; o += "0123456789ABCDEF"[((const uint8_t*)p)[i] & 15]; }
+  return o;
+}
+
+static volatile uint32_t g_sm_sink;
+struct SmSubject { String* s = nullptr; std::string m; bool failed = false; int tmp = 0; const char* name = ""; };
+struct SmFaultsOff { bool c; SmFaultsOff() : c(F.counting) { F.counting = false; } ~SmFaultsOff() { F.counting = c; } };
+
+struct W8 : Workload {
+  std::optional<String> s_plain, s_other;
+  std::optional<StringTmp<32>> s_t32;
+  std::optional<StringTmp<256>> s_t256;
+  std::optional<Arena> arena;
+  ArenaString<16> a16; ArenaString<32> a32; ArenaString<64> a64;
+  std::string m_a[3]; bool a_failed[3] = { false, false, false };
+  SmSubject U[4];            // plain String, StringTmp<32>, StringTmp<256>, the "other" String of two-string calls
+  Rec* R = nullptr; Result* out = nullptr;
+  bool stats = false, phase1 = false, halt = false;
+  uint64_t h = 0; uint32_t salt = 0;
+
+  void bind() {
+    U[0].s = &*s_plain; U[0].name = "String"; U[0].tmp = 0;
+    U[1].s = &*s_t32; U[1].name = "StringTmp<32>"; U[1].tmp = 1;
+    U[2].s = &*s_t256; U[2].name = "StringTmp<256>"; U[2].tmp = 2;
+    U[3].s = &*s_other; U[3].name = "String(other)"; U[3].tmp = 0;
+  }
+  void construct() override {
+    sm_init_text();
+    s_plain.emplace(); s_other.emplace(); s_t32.emplace(); s_t256.emplace(); arena.emplace(1024);
+    a16.reset(); a32.reset(); a64.reset();
+    bind();
+    for (auto& u : U) { u.m.clear(); u.failed = false; }
+    for (int i = 0; i < 3; i++) { m_a[i].clear(); a_failed[i] = false; }
+  }
+
+  // the public call behind an operation (names the violation key)
+  static const char* api_of(int op) {
+    switch (op) {
+      case SMOP_SETUP_RESET: return "String::reset";
+      case SMOP_SETUP_EXTERNAL: return "StringTmp::_reset_to_temporary";
+      case SMOP_SETUP_ASSIGN: case SMOP_ASSIGN_SHORT: case SMOP_ASSIGN_GROW: case SMOP_ASSIGN_GROW_BIG: case SMOP_ASSIGN_SHRINK: case SMOP_ASSIGN_SAME_SIZE:
+      case SMOP_ASSIGN_CAPACITY: case SMOP_ASSIGN_CSTR_GROW: case SMOP_ASSIGN_SELF: case SMOP_ASSIGN_SELF_TAIL: case SMOP_ASSIGN_NULL: case SMOP_ASSIGN_OTHER:
+        return "String::assign";
+      case SMOP_ASSIGN_SPAN_GROW: case SMOP_OP_STRING_ASSIGN_GROW: case SMOP_OP_STRING_ASSIGN_EMPTY: return "String::_op_string(assign)";
+      case SMOP_ASSIGN_CHAR: return "String::assign(char)";
+      case SMOP_SETUP_ASSIGN_CHARS: case SMOP_ASSIGN_CHARS_GROW: return "String::assign_chars";
+      case SMOP_ASSIGN_INT: case SMOP_ASSIGN_UINT_WIDE: return "String::assign_int";
+      case SMOP_ASSIGN_HEX_GROW: return "String::assign_hex";
+      case SMOP_ASSIGN_FORMAT_SMALL: case SMOP_ASSIGN_FORMAT_GROW: case SMOP_ASSIGN_FORMAT_HUGE: return "String::assign_format";
+      case SMOP_PREPARE_ASSIGN_GROW: case SMOP_PREPARE_APPEND_GROW: return "String::prepare";
+      case SMOP_SETUP_APPEND: case SMOP_APPEND_SMALL: case SMOP_APPEND_GROW: case SMOP_APPEND_CSTR_GROW: case SMOP_APPEND_SPAN_GROW: case SMOP_APPEND_OTHER: return "String::append";
+      case SMOP_APPEND_CHAR: return "String::append(char)";
+      case SMOP_APPEND_CHARS_GROW: return "String::append_chars";
+      case SMOP_APPEND_INT: case SMOP_APPEND_UINT_HEX: case SMOP_APPEND_UINT_WIDE: case SMOP_OP_NUMBER_APPEND: return "String::append_int";
+      case SMOP_APPEND_HEX: case SMOP_APPEND_HEX_GROW: return "String::append_hex";
+      case SMOP_APPEND_FORMAT_SMALL: case SMOP_APPEND_FORMAT_GROW: case SMOP_APPEND_FORMAT_HUGE: return "String::append_format";
+      case SMOP_PAD_END_GROW: case SMOP_PAD_END_CAPACITY: case SMOP_PAD_END_NOOP: return "String::pad_end";
+      case SMOP_SETUP_TRUNCATE: case SMOP_TRUNCATE_HALF: case SMOP_TRUNCATE_NOOP: return "String::truncate";
+      case SMOP_CLEAR: return "String::clear";
+      case SMOP_SWAP_OTHER: return "String::swap";
+      case SMOP_MOVE_FROM_OTHER: case SMOP_MOVE_ROUNDTRIP: return "String::operator=(String&&)";
+      case SMOP_ARENA_SET_EMBEDDED: case SMOP_ARENA_SET_EXTERNAL: return "ArenaString::set_data";
+      default: return "String";
+    }
+  }
+
+  void defect(const char* kind, const char* who, int op, int row, const std::string& what) {
+    const char* api = api_of(op);
+    std::string text = std::string(who) + " " + kSmOpNames[op] + " (start state " + kSmRowNames[row] + "): " + what + "; ";
+    for (auto& x : out->api_defects) if (!strcmp(x.kind, kind) && !strcmp(x.api, api)) { if (x.what.size() < 400) x.what += text; return; }
+    out->api_defects.push_back(Result::Defect{kind, api, text});
+  }
+
+  static int storage_of(const String& s) { return s.is_external() ? 2 : s.is_large_or_external() ? 1 : 0; }
+
+  // after_error: the call that preceded returned an error; content_unspecified: ... and was a formatting assign
+  void verify(SmSubject& u, int op, int row, bool after_error, bool content_unspecified) {
+    String& s = *u.s;
+    if (stats) ST.sm_checks++;
+    const char* d = s.data(); size_t n = s.size(), c = s.capacity();
+    char b[240];
+    if (!d || n > c) {
+      snprintf(b, sizeof b, "data()=%p size()=%zu capacity()=%zu", (const void*)d, n, c);
+      defect(after_error ? "string-invalid-after-failed-call" : "string-invalid", u.name, op, row, b);
+      return;
+    }
+    bool resync = false;
+    if (after_error && content_unspecified) {
+      if (!s.equals(d, n)) resync = true;          // reads every byte through asmjit
+      uint32_t sum = 0; for (size_t i = 0; i <= n; i++) sum += uint8_t(d[i]);
+      g_sm_sink = sum;
+      resync = resync || n != u.m.size() || memcmp(d, u.m.data(), n) != 0;
+    }
+    else if (n != u.m.size() || !s.equals(u.m.data(), u.m.size()) || memcmp(d, u.m.data(), n) != 0) {
+      size_t i = 0; while (i < n && i < u.m.size() && d[i] == u.m[i]) i++;
+      snprintf(b, sizeof b, "size()=%zu, model %zu; first difference at %zu; storage=%d capacity()=%zu", n, u.m.size(), i, storage_of(s), c);
+      defect(after_error ? "string-changed-by-failed-call" : "string-differs-from-model", u.name, op, row, b);
+      resync = true;
+    }
+    if (d[n] != 0) {
+      snprintf(b, sizeof b, "data()[size()] = 0x%02x, size()=%zu capacity()=%zu storage=%d", unsigned(uint8_t(d[n])), n, c, storage_of(s));
+      defect(after_error ? "string-not-terminated-after-failed-call" : "string-not-terminated", u.name, op, row, b);
+    }
+    if (resync) u.m.assign(d, n);                  // one deviation is reported once
+  }
+
+  // One call. `want` receives the content the model holds after kOk. Returns what the call returned.
+  Error do_op(int op, SmSubject& u, size_t param, std::string& want, bool& content_unspecified, bool& with_other, bool& skipped) {
+    String& s = *u.s; const std::string& m = u.m; SmSubject& O = U[3];
+    size_t n = s.size(), c = s.capacity();
+    const char* A = g_sm_txt[0] + (salt % 61u);
+    const char* B = g_sm_txt[1] + (salt % 29u);
+    static const uint8_t raw[24] = { 1, 2, 3, 4, 5, 6, 7, 8, 9, 10, 11, 12, 13, 14, 15, 16, 17, 18, 19, 20, 21, 22, 23, 0xFE };
+    auto clamp = [](size_t k) { return k > 8000 ? size_t(8000) : k; };
+    size_t room = c - n, k;
+    switch (op) {
+      case SMOP_SETUP_RESET: want.clear(); return s.reset();
+      case SMOP_SETUP_EXTERNAL:
+        want.clear();
+        if (n != 0 || s.is_large_or_external() || !u.tmp) { want = m; skipped = true; return Error::kOk; }   // only a StringTmp that was just reset()
+        if (u.tmp == 1) static_cast<StringTmp<32>&>(s)._reset_to_temporary(); else static_cast<StringTmp<256>&>(s)._reset_to_temporary();
+        return Error::kOk;
+      case SMOP_SETUP_ASSIGN: k = clamp(param); want.assign(A, k); return s.assign(A, k);
+      case SMOP_SETUP_APPEND: k = clamp(param); want = m + std::string(B, k); return s.append(B, k);
+      case SMOP_SETUP_ASSIGN_CHARS: k = clamp(param); want.assign(k, 'r'); return s.assign_chars('r', k);
+      case SMOP_SETUP_TRUNCATE: want = m.substr(0, std::min(param, m.size())); return s.truncate(param);
+
+      case SMOP_ASSIGN_SHORT: want.assign(A, 7); return s.assign(A, 7);
+      case SMOP_ASSIGN_GROW: k = clamp(c + 14); want.assign(B, k); return s.assign(B, k);
+      case SMOP_ASSIGN_GROW_BIG: k = clamp(c + 700); want.assign(A, k); return s.assign(A, k);
+      case SMOP_ASSIGN_SHRINK: k = n / 2; want.assign(B, k); return s.assign(B, k);
+      case SMOP_ASSIGN_SAME_SIZE: want.assign(B, n); return s.assign(B, n);
+      case SMOP_ASSIGN_CAPACITY: k = clamp(c); want.assign(A, k); return s.assign(A, k);
+      case SMOP_ASSIGN_CSTR_GROW: { std::string z(B, clamp(c + 3)); want = z; return s.assign(z.c_str()); }
+      case SMOP_ASSIGN_SELF: want = m; return s.assign(s.data(), s.size());
+      case SMOP_ASSIGN_SELF_TAIL: k = n / 3; want = m.substr(std::min(k, m.size())); return s.assign(s.data() + k, n - k);
+      case SMOP_ASSIGN_NULL: want.clear(); return s.assign(nullptr, 0);
+      case SMOP_ASSIGN_OTHER: want = O.m; with_other = true; return s.assign(*O.s);
+      case SMOP_ASSIGN_SPAN_GROW: k = clamp(c + 5); want.assign(B, k); return s.assign(Span<const char>(B, k));
+      case SMOP_ASSIGN_CHAR: want = "c"; return s.assign('c');
+      case SMOP_ASSIGN_CHARS_GROW: k = clamp(c + 9); want.assign(k, 'z'); return s.assign_chars('z', k);
+      case SMOP_ASSIGN_INT: want = sm_number(uint64_t(int64_t(-42)), 10, 0, StringFormatFlags::kSigned); return s.assign_int(-42);
+      case SMOP_ASSIGN_UINT_WIDE: want = sm_number(0x1234, 8, 300, StringFormatFlags::kAlternate); return s.assign_uint(0x1234, 8, 300, StringFormatFlags::kAlternate);
+      case SMOP_ASSIGN_HEX_GROW: k = clamp(c) / 3 + 4; want = sm_hex(A, k, ':'); return s.assign_hex(A, k, ':');
+      case SMOP_ASSIGN_FORMAT_SMALL: { char t[64]; snprintf(t, sizeof t, "[%u|%s|%08X]", 7u, "it", 0xBEEFu); want = t; content_unspecified = true; return s.assign_format("[%u|%s|%08X]", 7u, "it", 0xBEEFu); }
+      case SMOP_ASSIGN_FORMAT_GROW: { std::string z(A, clamp(c + 9)); want = "<" + z + ">"; content_unspecified = true; return s.assign_format("<%s>", z.c_str()); }
+      case SMOP_ASSIGN_FORMAT_HUGE: { std::string z(B, clamp(std::max<size_t>(c, 1100) + 40)); want = z + "#77"; content_unspecified = true; return s.assign_format("%s#%d", z.c_str(), 77); }
+      case SMOP_OP_STRING_ASSIGN_GROW: k = clamp(c + 7); want.assign(B, k); return s._op_string(String::ModifyOp::kAssign, B, k);
+      case SMOP_OP_STRING_ASSIGN_EMPTY: want.clear(); return s._op_string(String::ModifyOp::kAssign, "", 0);
+      case SMOP_PREPARE_ASSIGN_GROW: {
+        k = clamp(c + 12); want.assign(k, 'p');
+        char* p = s.prepare(String::ModifyOp::kAssign, k);
+        if (!p) return Error::kOutOfMemory;
+        memset(p, 'p', k); return Error::kOk;
+      }
+
+      case SMOP_APPEND_SMALL: want = m + std::string(A, 3); return s.append(A, 3);
+      case SMOP_APPEND_GROW: k = clamp(room + 6); want = m + std::string(B, k); return s.append(B, k);
+      case SMOP_APPEND_CSTR_GROW: { std::string z(A, clamp(room + 2)); want = m + z; return s.append(z.c_str()); }
+      case SMOP_APPEND_SPAN_GROW: k = clamp(room + 4); want = m + std::string(A, k); return s.append(Span<const char>(A, k));
+      case SMOP_APPEND_CHAR: want = m + '!'; return s.append('!');
+      case SMOP_APPEND_CHARS_GROW: k = clamp(room + 10); want = m + std::string(k, '='); return s.append_chars('=', k);
+      case SMOP_APPEND_OTHER: want = m + O.m; with_other = true; return s.append(*O.s);
+      case SMOP_APPEND_INT: want = m + sm_number(uint64_t(int64_t(-1234567)), 10, 12, StringFormatFlags::kShowSign | StringFormatFlags::kSigned);
+        return s.append_int(-1234567, 10, 12, StringFormatFlags::kShowSign);
+      case SMOP_APPEND_UINT_HEX: want = m + sm_number(0xDEADBEEFCAFEull, 16, 20, StringFormatFlags::kAlternate); return s.append_uint(0xDEADBEEFCAFEull, 16, 20, StringFormatFlags::kAlternate);
+      case SMOP_APPEND_UINT_WIDE: want = m + sm_number(5, 2, 250, StringFormatFlags::kShowSpace); return s.append_uint(5, 2, 250, StringFormatFlags::kShowSpace);
+      case SMOP_APPEND_HEX: want = m + sm_hex(raw, sizeof raw, ':'); return s.append_hex(raw, sizeof raw, ':');
+      case SMOP_APPEND_HEX_GROW: k = clamp(room) / 2 + 4; want = m + sm_hex(B, k, '\0'); return s.append_hex(B, k);
+      case SMOP_APPEND_FORMAT_SMALL: { char t[64]; snprintf(t, sizeof t, "[%u|%s|%08X]", 9u, "item", 0xC0FFEEu); want = m + t; return s.append_format("[%u|%s|%08X]", 9u, "item", 0xC0FFEEu); }
+      case SMOP_APPEND_FORMAT_GROW: { std::string z(A, clamp(room + 9)); want = m + "<" + z + ">"; return s.append_format("<%s>", z.c_str()); }
+      case SMOP_APPEND_FORMAT_HUGE: { std::string z(B, clamp(std::max<size_t>(room, 1100) + 40)); want = m + z + "#78"; return s.append_format("%s#%d", z.c_str(), 78); }
+      case SMOP_OP_NUMBER_APPEND: want = m + sm_number(0777, 8, 0, StringFormatFlags::kAlternate); return s._op_number(String::ModifyOp::kAppend, 0777, 8, 0, StringFormatFlags::kAlternate);
+      case SMOP_PREPARE_APPEND_GROW: {
+        k = clamp(room + 12); want = m + std::string(k, 'q');
+        char* p = s.prepare(String::ModifyOp::kAppend, k);
+        if (!p) return Error::kOutOfMemory;
+        memset(p, 'q', k); return Error::kOk;
+      }
+
+      case SMOP_PAD_END_GROW: k = clamp(c + 17); want = m; if (k > n) want.append(k - n, '.'); return s.pad_end(k, '.');
+      case SMOP_PAD_END_CAPACITY: k = clamp(c); want = m; if (k > n) want.append(k - n, '_'); return s.pad_end(k, '_');
+      case SMOP_PAD_END_NOOP: want = m; return s.pad_end(n / 2);
+      case SMOP_TRUNCATE_HALF: want = m.substr(0, m.size() / 2); return s.truncate(n / 2);
+      case SMOP_TRUNCATE_NOOP: want = m; return s.truncate(n + 10);
+      case SMOP_CLEAR: want.clear(); return s.clear();
+
+      // (a swap that would leave a plain String pointing into the embedded buffer of a StringTmp is a caller's mistake: skipped)
+      case SMOP_SWAP_OTHER:
+        if (s.is_external() || O.s->is_external()) { want = m; skipped = true; return Error::kOk; }
+        want = O.m; with_other = true; s.swap(*O.s); O.m = m; return Error::kOk;
+      case SMOP_MOVE_FROM_OTHER:
+        if (O.s->is_external()) { want = m; skipped = true; return Error::kOk; }
+        want = O.m; with_other = true; s = std::move(*O.s); O.m.clear(); return Error::kOk;
+      case SMOP_MOVE_ROUNDTRIP: {
+        want = m;
+        String x(std::move(s));
+        if (s.size() != 0 || s.is_large_or_external() || s.data()[0] != 0) defect("string-differs-from-model", u.name, op, SM_FREE, "a moved-from String is not empty");
+        if (!x.equals(m.data(), m.size())) defect("string-differs-from-model", u.name, op, SM_FREE, "the move-constructed String does not hold the content");
+        s = std::move(x);
+        return Error::kOk;
+      }
+      default: break;
+    }
+    skipped = true; want = m;
+    return Error::kOk;
+  }
+
+  void run_op(SmSubject& u, int op, int row, size_t param = 0) {
+    if (halt) return;
+    std::string want; bool unspecified = false, with_other = false, skipped = false;
+    bool faults_on = F.counting;
+    bool obj_failed_before = u.failed || ((op == SMOP_ASSIGN_OTHER || op == SMOP_APPEND_OTHER || op == SMOP_SWAP_OTHER || op == SMOP_MOVE_FROM_OTHER) && U[3].failed);
+    int storage = storage_of(*u.s);
+    salt = salt * 31u + uint32_t(op) + 7u;
+    Error e = do_op(op, u, param, want, unspecified, with_other, skipped);
+    if (skipped) return;
+    if (stats) {
+      ST.sm_ops++; ST.sm_run[row][op]++;
+      if (obj_failed_before) { if (phase1) ST.sm_ops_after_failure++; else ST.sm_ops_in_retry_after_failure++; }
+    }
+    if (e == Error::kOk) {
+      R->calls++;
+      u.m = want;
+      if (op == SMOP_SWAP_OTHER) { U[3].failed = U[3].failed || u.failed; }
+      verify(u, op, row, false, false);
+      if (with_other) verify(U[3], op, row, false, false);
+    }
+    else {
+      R->rec(e);
+      u.failed = true;
+      if (stats) { ST.sm_failed_calls++; ST.sm_failed[row][op]++; ST.sm_failed_by_type[storage]++; }
+      if (phase1 && !faults_on) defect("error-with-memory-available", u.name, op, row, "the call returned error " + std::to_string(unsigned(e)) + " although no request was refused");
+      SmFaultsOff off;
+      verify(u, op, row, true, unspecified);
+      if (with_other) verify(U[3], op, row, false, false);
+      if (R->stopped()) { halt = true; return; }
+      if (faults_on) {
+        // the caller carries on with the same object, memory is available again
+        if (stats) ST.sm_continuations++;
+        run_op(u, SMOP_ASSIGN_GROW, row);
+        run_op(u, SMOP_APPEND_CHARS_GROW, row);
+      }
+    }
+    h = fnv1a(u.s->data(), u.s->size(), h * 31 + uint64_t(e));
+  }
+
+  void establish(SmSubject& u, int row) {
+    run_op(u, SMOP_SETUP_RESET, row);
+    switch (row) {
+      case SM_SSO: run_op(u, SMOP_SETUP_ASSIGN, row, 11); break;
+      case SM_HEAP_SMALL: run_op(u, SMOP_SETUP_ASSIGN, row, 41); break;                                               // malloc(size + 1): capacity == size
+      case SM_HEAP_GROWN: run_op(u, SMOP_SETUP_ASSIGN, row, 35); run_op(u, SMOP_SETUP_APPEND, row, 100); break;       // second buffer, grown by prepare()
+      case SM_HEAP_ROOMY: run_op(u, SMOP_SETUP_ASSIGN_CHARS, row, 600); run_op(u, SMOP_SETUP_TRUNCATE, row, 20); break;   // >= 128 bytes free
+      case SM_EXT: case SM_EXT_ROOMY: run_op(u, SMOP_SETUP_EXTERNAL, row); run_op(u, SMOP_SETUP_ASSIGN, row, 17); break;
+      case SM_EXT_TO_HEAP: run_op(u, SMOP_SETUP_EXTERNAL, row); run_op(u, SMOP_SETUP_ASSIGN, row, 80); break;          // outgrew the embedded buffer
+      default: break;
+    }
+  }
+
+  void prepare_other(size_t size, int row) {
+    run_op(U[3], SMOP_SETUP_RESET, row);
+    run_op(U[3], SMOP_SETUP_ASSIGN, row, size);
+  }
+  static bool needs_other(int op) { return op == SMOP_ASSIGN_OTHER || op == SMOP_APPEND_OTHER || op == SMOP_SWAP_OTHER || op == SMOP_MOVE_FROM_OTHER; }
+
+  template<size_t N>
+  void arena_set(ArenaString<N>& a, int idx, const char* p, size_t n) {
+    if (halt) return;
+    int op = n <= ArenaString<N>::kMaxEmbeddedSize ? SMOP_ARENA_SET_EMBEDDED : SMOP_ARENA_SET_EXTERNAL;
+    static const char* const names[3] = { "ArenaString<16>", "ArenaString<32>", "ArenaString<64>" };
+    bool faults_on = F.counting;
+    if (stats) { ST.sm_ops++; ST.sm_run[SM_FREE][op]++; if (a_failed[idx]) { if (phase1) ST.sm_ops_after_failure++; else ST.sm_ops_in_retry_after_failure++; } }
+    Error e = a.set_data(*arena, p, n);
+    bool failed = e != Error::kOk;
+    if (!failed) { R->calls++; m_a[idx].assign(p, n); }
+    else { R->rec(e); a_failed[idx] = true; if (stats) { ST.sm_failed_calls++; ST.sm_failed[SM_FREE][op]++; } }
+    SmFaultsOff off;
+    if (stats) ST.sm_checks++;
+    const std::string& m = m_a[idx];
+    if (a.size() != m.size() || !a.data() || memcmp(a.data(), m.data(), m.size()) != 0 || a.data()[m.size()] != 0 || a.is_embedded() != (m.size() <= ArenaString<N>::kMaxEmbeddedSize))
+      defect(failed ? "string-changed-by-failed-call" : "string-differs-from-model", names[idx], op, SM_FREE, "size()=" + std::to_string(a.size()) + ", model " + std::to_string(m.size()));
+    h = fnv1a(m.data(), m.size(), h * 31 + uint64_t(e));
+    if (!failed) return;
+    if (R->stopped()) { halt = true; return; }
+    if (faults_on) { if (stats) ST.sm_continuations++; arena_set(a, idx, g_sm_txt[1] + 3, 70 + n % 50); }
+  }
+
+  void body(Rec& R_, Result& out_) override {
+    R = &R_; out = &out_; phase1 = F.counting; stats = F.mode != M_COUNT; halt = false; h = 1469598103934665603ull; salt = 0;
+    bind();
+    // ---- part 1: start state x script ---------------------------------------------------------------------------
+    static const int scripts[][3] = {
+      {SMOP_ASSIGN_SHORT, -1, -1}, {SMOP_ASSIGN_GROW, -1, -1}, {SMOP_ASSIGN_GROW_BIG, -1, -1}, {SMOP_ASSIGN_SHRINK, -1, -1}, {SMOP_ASSIGN_SAME_SIZE, -1, -1},
+      {SMOP_ASSIGN_CAPACITY, -1, -1}, {SMOP_ASSIGN_CSTR_GROW, -1, -1}, {SMOP_ASSIGN_SELF, -1, -1}, {SMOP_ASSIGN_SELF_TAIL, -1, -1}, {SMOP_ASSIGN_NULL, -1, -1},
+      {SMOP_ASSIGN_OTHER, -1, -1}, {SMOP_ASSIGN_SPAN_GROW, -1, -1}, {SMOP_ASSIGN_CHAR, -1, -1}, {SMOP_ASSIGN_CHARS_GROW, -1, -1}, {SMOP_ASSIGN_INT, -1, -1},
+      {SMOP_ASSIGN_UINT_WIDE, -1, -1}, {SMOP_ASSIGN_HEX_GROW, -1, -1}, {SMOP_ASSIGN_FORMAT_SMALL, -1, -1}, {SMOP_ASSIGN_FORMAT_GROW, -1, -1},
+      {SMOP_ASSIGN_FORMAT_HUGE, -1, -1}, {SMOP_OP_STRING_ASSIGN_GROW, -1, -1}, {SMOP_OP_STRING_ASSIGN_EMPTY, -1, -1}, {SMOP_PREPARE_ASSIGN_GROW, -1, -1},
+      {SMOP_APPEND_SMALL, -1, -1}, {SMOP_APPEND_GROW, -1, -1}, {SMOP_APPEND_CSTR_GROW, -1, -1}, {SMOP_APPEND_SPAN_GROW, -1, -1}, {SMOP_APPEND_CHAR, -1, -1},
+      {SMOP_APPEND_CHARS_GROW, -1, -1}, {SMOP_APPEND_OTHER, -1, -1}, {SMOP_APPEND_INT, -1, -1}, {SMOP_APPEND_UINT_HEX, -1, -1}, {SMOP_APPEND_UINT_WIDE, -1, -1},
+      {SMOP_APPEND_HEX, -1, -1}, {SMOP_APPEND_HEX_GROW, -1, -1}, {SMOP_APPEND_FORMAT_SMALL, -1, -1}, {SMOP_APPEND_FORMAT_GROW, -1, -1},
+      {SMOP_APPEND_FORMAT_HUGE, -1, -1}, {SMOP_OP_NUMBER_APPEND, -1, -1}, {SMOP_PREPARE_APPEND_GROW, -1, -1}, {SMOP_PAD_END_GROW, -1, -1},
+      {SMOP_PAD_END_NOOP, -1, -1}, {SMOP_TRUNCATE_NOOP, -1, -1}, {SMOP_SWAP_OTHER, SMOP_APPEND_GROW, -1}, {SMOP_MOVE_FROM_OTHER, SMOP_ASSIGN_GROW, -1},
+      {SMOP_MOVE_ROUNDTRIP, SMOP_APPEND_GROW, -1},
+      {SMOP_PAD_END_CAPACITY, SMOP_APPEND_CHAR, -1},                  // one character more than fits
+      {SMOP_ASSIGN_GROW, SMOP_ASSIGN_GROW, SMOP_ASSIGN_SHRINK},       // heap buffer replaced by a heap buffer
+      {SMOP_CLEAR, SMOP_ASSIGN_GROW, SMOP_APPEND_FORMAT_GROW},
+      {SMOP_TRUNCATE_HALF, SMOP_APPEND_GROW, SMOP_ASSIGN_GROW_BIG},
+      {SMOP_APPEND_GROW, SMOP_ASSIGN_CSTR_GROW, SMOP_SETUP_RESET},
+      {SMOP_ASSIGN_FORMAT_GROW, SMOP_ASSIGN_GROW, SMOP_CLEAR},
+    };
+    for (int row = 0; row < SM_FREE; row++) {
+      SmSubject& u = U[row < SM_EXT ? 0 : row == SM_EXT_ROOMY ? 2 : 1];
+      for (auto& sc : scripts) {
+        establish(u, row);
+        for (int i = 0; i < 3 && sc[i] >= 0; i++) {
+          if (needs_other(sc[i])) prepare_other(u.s->capacity() + 21, row);
+          run_op(u, sc[i], row);
+        }
+        if (halt) return;
+      }
+    }
+    // ---- part 2: free-running sequences ---------------------------------------------------------------------------
+    for (int idx = 0; idx < 3; idx++) {
+      SmSubject& u = U[idx];
+      Rng r(P.seed * 7919 + uint64_t(idx) * 104729 + 11);
+      for (int i = 0; i < 60; i++) {
+        int op = int(r.range(SMOP_ASSIGN_SHORT, SMOP_MOVE_ROUNDTRIP));
+        if (u.s->capacity() > 3000 || r.chance(1, 12)) {
+          run_op(u, SMOP_SETUP_RESET, SM_FREE);
+          if (u.tmp && r.chance(2, 3)) run_op(u, SMOP_SETUP_EXTERNAL, SM_FREE);
+        }
+        if (needs_other(op)) prepare_other(size_t(r.below(3) == 0 ? u.s->capacity() + 1 + r.below(40) : r.below(120)), SM_FREE);
+        run_op(u, op, SM_FREE);
+        if (halt) return;
+      }
+    }
+    // ---- every object once more: grow, shrink, release, grow (what is left is released by destroy()) -----------------
+    for (auto& u : U) {
+      run_op(u, SMOP_ASSIGN_GROW, SM_FREE); run_op(u, SMOP_TRUNCATE_HALF, SM_FREE); run_op(u, SMOP_SETUP_RESET, SM_FREE); run_op(u, SMOP_ASSIGN_GROW_BIG, SM_FREE);
+      if (halt) return;
+      out->put(u.name, u.s->data(), u.s->size());
+    }
+    // ---- part 3: ArenaString ------------------------------------------------------------------------------------------
+    {
+      const char* A = g_sm_txt[0] + 17;
+      static const size_t sizes[] = { 5, 11, 12, 27, 28, 59, 60, 90, 3, 200, 2000, 0, 61 };
+      for (size_t n : sizes) { arena_set(a16, 0, A + n, n); arena_set(a32, 1, A + 2 * n, n); arena_set(a64, 2, A + 3 * n, n); }
+      if (halt) return;
+      out->put("a16", a16.data(), a16.size()); out->put("a32", a32.data(), a32.size()); out->put("a64", a64.data(), a64.size());
+    }
+    out->num("h", h);
+  }
+
+  int recover(int strategy, Rec&) override {
+    if (strategy == 2) {   // destroy and construct anew
+      s_plain.reset(); s_other.reset(); s_t32.reset(); s_t256.reset();
+      s_plain.emplace(); s_other.emplace(); s_t32.emplace(); s_t256.emplace();
+      bind();
+    }
+    else for (auto& u : U) {
+      if (strategy == 0) (void)u.s->reset();
+      else { String fresh; u.s->swap(fresh); }   // the temporary takes what the object held and releases it
+    }
+    for (auto& u : U) u.m.clear();
+    a16.reset(); a32.reset(); a64.reset();
+    for (auto& m : m_a) m.clear();
+    arena->reset(strategy == 2 ? ResetPolicy::kHard : ResetPolicy::kSoft);
+    return 0;
+  }
+
+  void destroy() override { s_t256.reset(); s_t32.reset(); s_other.reset(); s_plain.reset(); a16.reset(); a32.reset(); a64.reset(); arena.reset(); }
+};
+
 // @@WORKLOADS@@
 
 // =========================================================================================================
@@ -1615,7 +2067,7 @@ struct W7 : Workload {
 
 static Workload* make_workload(const std::string& name);   // registry below
 
-struct Viol { std::string got_image, clean_image; std::string kind, what; uint64_t k; int cls; int mode; uintptr_t site[kSiteDepth]; uint64_t count; std::string pattern; };
+struct Viol { std::string got_image, clean_image; std::string kind, what, api; uint64_t k; int cls; int mode; uintptr_t site[kSiteDepth]; uint64_t count; std::string pattern; };
 static std::vector<Viol> g_viol;
 
 static std::string g_wname;
@@ -1630,11 +2082,13 @@ static std::string pattern_str() {
 
 static const char* mode_name(int m);
 static std::string g_viol_images[2];
+static const char* g_viol_api = nullptr;
 static void viol(const char* kind, const std::string& what) {
   bool with_images = !g_viol_images[0].empty();
+  std::string api = g_viol_api ? g_viol_api : "";
   for (auto& v : g_viol)
-    if (!with_images && v.kind == kind && v.cls == F.cls && memcmp(v.site, F.first_site, sizeof v.site) == 0) { v.count++; return; }
-  Viol v; v.kind = kind; v.what = what; v.k = F.k; v.cls = F.cls; v.mode = F.mode; v.count = 1; v.pattern = pattern_str();
+    if (!with_images && v.kind == kind && v.cls == F.cls && v.api == api && (!api.empty() || memcmp(v.site, F.first_site, sizeof v.site) == 0)) { v.count++; return; }
+  Viol v; v.kind = kind; v.what = what; v.k = F.k; v.cls = F.cls; v.mode = F.mode; v.count = 1; v.pattern = pattern_str(); v.api = api;
   memcpy(v.site, F.first_site, sizeof v.site);
   g_viol.push_back(v);
   // serialize now (a later case may kill this worker); "count" is therefore 1 here, repeats are not re-sent
@@ -1643,6 +2097,7 @@ static void viol(const char* kind, const std::string& what) {
   snprintf(b, sizeof b, ",\"count\":%llu,\"site\":[", (ull)v.count); o += b;
   for (int j = 0; j < kSiteDepth; j++) { snprintf(b, sizeof b, "%s%llu", j ? "," : "", (ull)(v.site[j] ? v.site[j] - g_exe_base : 0)); o += b; }
   o += "]";
+  if (!v.api.empty()) o += ",\"api\":" + jstr(v.api);
   if (!g_viol_images[0].empty() && g_viol_images[0].size() + g_viol_images[1].size() < 60000) o += ",\"got_main\":" + jstr(g_viol_images[0]) + ",\"clean_main\":" + jstr(g_viol_images[1]);
   o += "}";
   if (SH->viol_len + o.size() + 2 < sizeof SH->viol_buf) {
@@ -1705,6 +2160,8 @@ static void judge(const Deferred& d) {
   }
   if (!d.o1.defects.empty()) viol(d.o1.defect_kind, "with the objects still alive: " + d.o1.defects.substr(0, 400));
   if (!d.o2.defects.empty()) viol((std::string(d.o2.defect_kind) + "-in-retry").c_str(), "in the retry with memory available: " + d.o2.defects.substr(0, 400));
+  for (auto& x : d.o1.api_defects) { g_viol_api = x.api; viol(x.kind, "with the objects still alive: " + x.what.substr(0, 500)); g_viol_api = nullptr; }
+  for (auto& x : d.o2.api_defects) { g_viol_api = x.api; viol((std::string(x.kind) + "-in-retry").c_str(), "in the retry with memory available: " + x.what.substr(0, 500)); g_viol_api = nullptr; }
   if (d.Rr.reported()) viol("recover-failed", "reset/reinit after the failure reported error " + std::to_string(d.Rr.first_err));
   if (R2.reported()) {
     char b[200]; snprintf(b, sizeof b, "retry with memory available (recover strategy %d) reported an error: errs=%u first=%u (call %u) handler=%u nulls=%u", strategy, R2.errs, R2.first_err, R2.first_err_call, R2.handler, R2.nulls);
@@ -1744,6 +2201,7 @@ static bool run_case(Workload& W, int style_stop, int strategy) {
       ok = false;
     }
     if (!o1.defects.empty()) { fprintf(stderr, "HARNESS: failure-free run of %s: %s\n", g_wname.c_str(), o1.defects.c_str()); ok = false; }
+    for (auto& x : o1.api_defects) { fprintf(stderr, "HARNESS: failure-free run of %s: %s %s: %s\n", g_wname.c_str(), x.kind, x.api, x.what.c_str()); ok = false; }
     g_clean = o1; g_have_clean = true;
   }
   Rec Rf; Result oref; bool has_ref = false;
@@ -1762,6 +2220,7 @@ static bool run_case(Workload& W, int style_stop, int strategy) {
                 g_wname.c_str(), strategy, R2.errs, R2.first_err, R2.first_err_call, R2.handler, R2.nulls);
         ok = false;
       }
+      for (auto& x : o2.api_defects) { fprintf(stderr, "HARNESS: failure-free retry of %s (strategy %d): %s %s: %s\n", g_wname.c_str(), strategy, x.kind, x.api, x.what.c_str()); ok = false; }
       if (o2.main != g_clean.main || o2.aux != g_clean.aux) g_retry_differs_from_first |= 1u << strategy;
     }
     else {
@@ -1797,7 +2256,24 @@ static void emit_json(const Args& args, int cls, int mode, int rc_note) {
   o += ",\"errors\":{";
   bool first = true;
   for (int i = 0; i < 64; i++) if (ST.errs_by_code[i]) { snprintf(b, sizeof b, "%s\"%d\":%llu", first ? "" : ",", i, (ull)ST.errs_by_code[i]); o += b; first = false; }
-  o += "},\"violations\":[";
+  o += "}";
+  if (ST.sm_ops) {
+    snprintf(b, sizeof b, ",\"strmodel\":{\"ops\":%llu,\"failed_calls\":%llu,\"checks\":%llu,\"continuations\":%llu,\"ops_after_failure\":%llu,\"ops_in_retry_after_failure\":%llu,\"failed_by_storage\":{\"sso\":%llu,\"heap\":%llu,\"external\":%llu}",
+             (ull)ST.sm_ops, (ull)ST.sm_failed_calls, (ull)ST.sm_checks, (ull)ST.sm_continuations, (ull)ST.sm_ops_after_failure, (ull)ST.sm_ops_in_retry_after_failure,
+             (ull)ST.sm_failed_by_type[0], (ull)ST.sm_failed_by_type[1], (ull)ST.sm_failed_by_type[2]); o += b;
+    for (int pass = 0; pass < 2; pass++) {
+      o += pass ? ",\"failed\":{" : ",\"run\":{";
+      bool f1 = true;
+      for (int r = 0; r < SM_NROWS; r++) for (int q = 0; q < SM_NOPS; q++) {
+        uint64_t v = pass ? ST.sm_failed[r][q] : ST.sm_run[r][q];
+        if (!v) continue;
+        snprintf(b, sizeof b, "%s\"%s/%s\":%llu", f1 ? "" : ",", kSmRowNames[r], kSmOpNames[q], (ull)v); o += b; f1 = false;
+      }
+      o += "}";
+    }
+    o += "}";
+  }
+  o += ",\"violations\":[";
   o.append(SH->viol_buf, SH->viol_len);
   o += "],\"sites\":[";
   first = true;
@@ -1991,6 +2467,7 @@ static Workload* make_workload(const std::string& n) {
   if (n == "W7asm") return new W7<0>();
   if (n == "W7bld") return new W7<1>();
   if (n == "W7cc") return new W7<2>();
+  if (n == "W8") return new W8();
   // @@REGISTRY@@
   return nullptr;
 }
